@@ -451,33 +451,40 @@ Record root := mkRoot {
   r_queue : list (hchange * Z * Z);        (* change, parent id, window id *)
   r_nexp : bool; r_nrest : bool; r_later : bool;
   r_fault : bool;                          (* some rectangle-set loop ran out of fuel *)
-  r_dragging : bool; r_lbtn : Z; r_lline : Z; r_lcol : Z; r_dsrc : option Z }.
+  r_dragging : bool; r_lbtn : Z; r_lline : Z; r_lcol : Z; r_dsrc : option Z;
+  r_fuel : nat }.                          (* fuel of the rectangle-set loops; never changes *)
 
 Definition root_new (nl nc : Z) : root :=
   mkRoot (Node (new_info 0 (mkRect 0 0 nl nc) false false) []) [] [] [] false false false false
-         false 0 (-1) (-1) None.
+         false 0 (-1) (-1) None rsfuel.
+
+(* the same with another amount of fuel for the rectangle-set loops (the theorems hold for every
+   amount; rsfuel is what the extracted model runs with) *)
+Definition root_new_f (fuel : nat) (nl nc : Z) : root :=
+  mkRoot (Node (new_info 0 (mkRect 0 0 nl nc) false false) []) [] [] [] false false false false
+         false 0 (-1) (-1) None fuel.
 
 Definition set_tree (st : root) (t : wtree) : root :=
   mkRoot t (r_orphans st) (r_damage st) (r_queue st) (r_nexp st) (r_nrest st) (r_later st) (r_fault st)
-         (r_dragging st) (r_lbtn st) (r_lline st) (r_lcol st) (r_dsrc st).
+         (r_dragging st) (r_lbtn st) (r_lline st) (r_lcol st) (r_dsrc st) (r_fuel st).
 Definition set_orphans (st : root) (o : list wtree) : root :=
   mkRoot (r_tree st) o (r_damage st) (r_queue st) (r_nexp st) (r_nrest st) (r_later st) (r_fault st)
-         (r_dragging st) (r_lbtn st) (r_lline st) (r_lcol st) (r_dsrc st).
+         (r_dragging st) (r_lbtn st) (r_lline st) (r_lcol st) (r_dsrc st) (r_fuel st).
 Definition set_damage (st : root) (d : rectset) : root :=
   mkRoot (r_tree st) (r_orphans st) d (r_queue st) (r_nexp st) (r_nrest st) (r_later st) (r_fault st)
-         (r_dragging st) (r_lbtn st) (r_lline st) (r_lcol st) (r_dsrc st).
+         (r_dragging st) (r_lbtn st) (r_lline st) (r_lcol st) (r_dsrc st) (r_fuel st).
 Definition set_queue (st : root) (q : list (hchange * Z * Z)) : root :=
   mkRoot (r_tree st) (r_orphans st) (r_damage st) q (r_nexp st) (r_nrest st) (r_later st) (r_fault st)
-         (r_dragging st) (r_lbtn st) (r_lline st) (r_lcol st) (r_dsrc st).
+         (r_dragging st) (r_lbtn st) (r_lline st) (r_lcol st) (r_dsrc st) (r_fuel st).
 Definition set_flags (st : root) (nexp nrest later : bool) : root :=
   mkRoot (r_tree st) (r_orphans st) (r_damage st) (r_queue st) nexp nrest later (r_fault st)
-         (r_dragging st) (r_lbtn st) (r_lline st) (r_lcol st) (r_dsrc st).
+         (r_dragging st) (r_lbtn st) (r_lline st) (r_lcol st) (r_dsrc st) (r_fuel st).
 Definition set_fault (st : root) : root :=
   mkRoot (r_tree st) (r_orphans st) (r_damage st) (r_queue st) (r_nexp st) (r_nrest st) (r_later st) true
-         (r_dragging st) (r_lbtn st) (r_lline st) (r_lcol st) (r_dsrc st).
+         (r_dragging st) (r_lbtn st) (r_lline st) (r_lcol st) (r_dsrc st) (r_fuel st).
 Definition set_drag (st : root) (dragging : bool) (b l c : Z) (src : option Z) : root :=
   mkRoot (r_tree st) (r_orphans st) (r_damage st) (r_queue st) (r_nexp st) (r_nrest st) (r_later st) (r_fault st)
-         dragging b l c src.
+         dragging b l c src (r_fuel st).
 
 (* _request_restore *)
 Definition request_restore (st : root) : root := set_flags st (r_nexp st) true true.
@@ -505,11 +512,11 @@ Fixpoint expose_up (chain : list wtree) (ex : option rect) : option rect :=
 
 (* the root's part: dedupe by containment, add, raise the flags *)
 Definition root_damage (st : root) (d : rect) : root :=
-  match rs_contains rsfuel (r_damage st) d with
+  match rs_contains (r_fuel st) (r_damage st) d with
   | None => set_fault st
   | Some true => st
   | Some false =>
-    match rs_add rsfuel (r_damage st) d with
+    match rs_add (r_fuel st) (r_damage st) d with
     | None => set_fault st
     | Some s => set_flags (set_damage st s) true (r_nrest st) true
     end
@@ -864,10 +871,10 @@ Definition win_flush (cfg : defects) (hnd : handler) (st : root) (tm : term)
 (* ------------------------------------------------------------------------------------ *)
 (* Scrolling                                                                             *)
 
-Definition rs_sub_vis (s : option rectset) (l : list wtree) : option rectset :=
+Definition rs_sub_vis (fuel : nat) (s : option rectset) (l : list wtree) : option rectset :=
   fold_left (fun acc c => match acc with
                           | None => None
-                          | Some s' => if w_vis (t_info c) then rs_subtract rsfuel s' (w_rect (t_info c)) else Some s'
+                          | Some s' => if w_vis (t_info c) then rs_subtract fuel s' (w_rect (t_info c)) else Some s'
                           end) l s.
 
 (* the siblings in front of [id] *)
@@ -878,11 +885,11 @@ Fixpoint kids_before (id : Z) (l : list wtree) : list wtree :=
   end.
 
 (* repair of #18: keep only what lies inside the given bounds *)
-Definition rs_clip (s : rectset) (bounds : rect) : option rectset :=
+Definition rs_clip (fuel : nat) (s : rectset) (bounds : rect) : option rectset :=
   fold_left (fun acc x => match acc with
                           | None => None
                           | Some s' => match r_intersect x bounds with
-                                       | Some y => rs_add rsfuel s' y
+                                       | Some y => rs_add fuel s' y
                                        | None => Some s'
                                        end
                           end) s (Some []).
@@ -890,7 +897,7 @@ Definition rs_clip (s : rectset) (bounds : rect) : option rectset :=
 Inductive sregion := SFault | SInvisible | SRegion (v : rectset) (abs_t abs_l : Z).
 
 (* the upward loop of _scrollrectset; [chain] = [win; parent; ...; root] *)
-Fixpoint scroll_region (cfg : defects) (chain : list wtree) (v : rectset) (abs_t abs_l : Z) : sregion :=
+Fixpoint scroll_region (cfg : defects) (fuel : nat) (chain : list wtree) (v : rectset) (abs_t abs_l : Z) : sregion :=
   match chain with
   | [] => SRegion v abs_t abs_l
   | w :: rest =>
@@ -900,28 +907,28 @@ Fixpoint scroll_region (cfg : defects) (chain : list wtree) (v : rectset) (abs_t
     | [] => SRegion v abs_t abs_l
     | p :: _ =>
       let v1 := rs_translate v (top (w_rect i)) (left (w_rect i)) in
-      match rs_sub_vis (Some v1) (kids_before (w_id i) (t_kids p)) with
+      match rs_sub_vis fuel (Some v1) (kids_before (w_id i) (t_kids p)) with
       | None => SFault
       | Some v2 =>
-        match (if d_scroll_noclip cfg then Some v2 else rs_clip v2 (selfrect (t_info p))) with
+        match (if d_scroll_noclip cfg then Some v2 else rs_clip fuel v2 (selfrect (t_info p))) with
         | None => SFault
-        | Some v3 => scroll_region cfg rest v3 (abs_t + top (w_rect i)) (abs_l + left (w_rect i))
+        | Some v3 => scroll_region cfg fuel rest v3 (abs_t + top (w_rect i)) (abs_l + left (w_rect i))
         end
       end
     end
   end.
 
 (* moving the pending damage inside one scrolled rectangle *)
-Definition shift_damage (dmg : rectset) (rc : rect) (down rightw : Z) : option rectset :=
+Definition shift_damage (fuel : nat) (dmg : rectset) (rc : rect) (down rightw : Z) : option rectset :=
   fold_left
     (fun acc x =>
        match acc with
        | None => None
        | Some s =>
          if (bottom x <? top rc) || (top x >? bottom rc) || (right x <? left rc) || (left x >? right rc)
-         then rs_add rsfuel s x
+         then rs_add fuel s x
          else
-           match rs_add_list rsfuel s (r_subtract x rc) with
+           match rs_add_list fuel s (r_subtract x rc) with
            | None => None
            | Some s1 =>
              match r_intersect x rc with
@@ -929,7 +936,7 @@ Definition shift_damage (dmg : rectset) (rc : rect) (down rightw : Z) : option r
              | Some ins =>
                match r_intersect (r_translate ins (- down) (- rightw)) rc with
                | None => Some s1
-               | Some y => rs_add rsfuel s1 y
+               | Some y => rs_add fuel s1 y
                end
              end
            end
@@ -942,7 +949,7 @@ Definition scroll_one (id : Z) (abs_t abs_l down rightw : Z)
   if (Z.abs down >=? lines rc) || (Z.abs rightw >=? cols rc) then
     (win_expose st id (Some orig), tm, ret, done_pen)
   else
-    match shift_damage (r_damage st) rc down rightw with
+    match shift_damage (r_fuel st) (r_damage st) rc down rightw with
     | None => (set_fault st, tm, ret, done_pen)
     | Some dmg =>
       let st1 := set_damage st dmg in
@@ -974,13 +981,13 @@ Definition win_scroll (cfg : defects) (st : root) (tm : term) (id : Z) (orig : o
       match (match orig with Some o => r_intersect self o | None => r_intersect self self end) with
       | None => (st, tm, false)
       | Some rc =>
-        match rs_add rsfuel [] rc with
+        match rs_add (r_fuel st) [] rc with
         | None => (set_fault st, tm, false)
         | Some v0 =>
-          match (if mask_children then rs_sub_vis (Some v0) (t_kids w) else Some v0) with
+          match (if mask_children then rs_sub_vis (r_fuel st) (Some v0) (t_kids w) else Some v0) with
           | None => (set_fault st, tm, false)
           | Some v1 =>
-            match scroll_region cfg chain v1 0 0 with
+            match scroll_region cfg (r_fuel st) chain v1 0 0 with
             | SFault => (set_fault st, tm, false)
             | SInvisible => (st, tm, false)
             | SRegion v abs_t abs_l =>
